@@ -70,7 +70,7 @@ def run(R):
     def case(kind, texts, extra, tag):
         c = {'kind': kind, 'texts': [list(x) for x in texts], 'extra': extra}
         if kind == 'dfa2regexp' and set(DA.parse_dfa(texts[0][1]).Sigma) & {'0', '1'}: kind = 'dfa2regexp-digit-symbols'; c['kind'] = 'dfa2regexp'      # known finding F22
-        R.guard('own_answer', 'own-answer-' + kind, lambda: c, lambda: chk(c['kind'], texts, extra) + ((tag, kind, str(extra)),), kind, timeout=60, timeout_ok=True)
+        R.guard('own_answer', 'own-answer-' + kind, lambda: c, lambda: chk(c['kind'], texts, extra) + ((tag, kind, str(extra)),), kind, timeout=10 if texts[0][0] == 'pda' else 60, timeout_ok=True)      # PDAs that push on epsilon loops run into the closure limit: slow, not wrong
     # shipped examples, as in notebooks.batch
     ex = os.path.join(os.environ.get('GVC_REPO_ROOT', '/repo'), 'examples')
     rd = lambda n: open(os.path.join(ex, n), encoding='utf-8').read()
